@@ -1,11 +1,21 @@
 import Driver.Util
 import Driver.SecAlg
+import Driver.Aper
+import Driver.NasCodec
+import Driver.SecHist
+import Driver.Milenage
+import Driver.Aka
+import Driver.Extract
+import Driver.Suci
+import Driver.Ue
+import Driver.Conv
 open Driver
 
 /-- op name → handler. Each domain lives in its own `Driver/<Domain>.lean` and exports `<domain>Handlers`;
     add one import above and one `++` here. -/
 def handlers : List (String × Handler) :=
-  secAlgHandlers
+  secAlgHandlers ++ aperHandlers ++ secHistHandlers ++ milenageHandlers ++ akaHandlers ++ nasCodecHandlers ++ extractHandlers
+    ++ suciHandlers ++ ueHandlers ++ convHandlers
 
 def step (line : String) : String :=
   match (line.trimAscii.toString.splitOn " ").filter (· ≠ "") with
